@@ -43,7 +43,7 @@ SeqApply(t, q) ==
          ELSE IF nf = f THEN R(t, "")                      \* no names, same fid: a no-op
          ELSE IF q.out # "clone" /\ ~t[f].d THEN R(t, "notdir")
          ELSE IF q.out = "fail" THEN R(t, "fs")
-         ELSE R([t EXCEPT ![nf] = [b |-> TRUE, o |-> FALSE, d |-> IF q.out = "clone" THEN t[f].d ELSE TRUE]], "")
+         ELSE R([t EXCEPT ![nf] = [b |-> TRUE, o |-> FALSE, d |-> IF q.out = "clone" THEN t[f].d ELSE q.out # "file"]], "")   \* (out "file": the name found is a plain file)
     [] q.k = "walkin" ->   \* one name, in place: the fid moves to the entry found (its open state is not touched)
          IF ~t[f].b THEN R(t, "unknownfid")
          ELSE IF ~t[f].d THEN R(t, "notdir")
@@ -55,7 +55,7 @@ SeqApply(t, q) ==
          ELSE IF q.out = "fail" THEN R(t, "fs")
          ELSE IF q.out = "dirfail" THEN R([t EXCEPT ![f] = Blank], "fs")
          ELSE R([t EXCEPT ![f] = [b |-> TRUE, o |-> TRUE, d |-> q.out = "dir"]], "")
-    [] q.k = "open" ->
+    [] q.k \in {"open", "openr"} ->
          IF ~t[f].b THEN R(t, "unknownfid")
          ELSE IF t[f].o THEN R(t, "alreadyopen")
          ELSE IF q.out = "fail" THEN R(t, "fs")
@@ -79,13 +79,13 @@ Consume ==
             /\ UNCHANGED <<tab, infs, dead, uar, badq>>
        [] e.e = "ret" ->
             /\ pend[e.p].active /\ pend[e.p].lin /\ pend[e.p].res = e.res
-            /\ badq' = (badq \/ (e.k = "open" /\ e.res = "" /\ e.q # pend[e.p].oh))
+            /\ badq' = (badq \/ (e.k \in {"open", "openr"} /\ e.res = "" /\ e.q # pend[e.p].oh))
             /\ pend' = [pend EXCEPT ![e.p] = Idle]
             /\ UNCHANGED <<tab, infs, dead, uar>>
        [] e.e = "fse" ->
             /\ infs' = infs \cup {<<e.h, e.p>>}
             /\ uar' = IF e.h \in dead THEN uar \cup {<<e.h, e.k>>} ELSE uar
-            /\ pend' = IF e.p \in Procs /\ e.k \in {"open", "opendir"} /\ pend[e.p].k = "open"
+            /\ pend' = IF e.p \in Procs /\ e.k \in {"open", "opendir"} /\ pend[e.p].k \in {"open", "openr"}
                           THEN [pend EXCEPT ![e.p].oh = e.h] ELSE pend
             /\ UNCHANGED <<tab, dead, badq>>
        [] e.e = "fsx" ->
